@@ -1,6 +1,8 @@
 package harbor
 
 import (
+	sdk "github.com/cosmos/cosmos-sdk/types"
+
 	"bufio"
 	"crypto/sha256"
 	"encoding/hex"
@@ -25,6 +27,11 @@ func configFor(k int, rng *sim.Rng) Config {
 	c := Config{DecC: d[0], DecA: d[1], DecS: d[2], DecU: d[3], DrawFee: draws[(k/2)%len(draws)], CloseFee: closes[(k/3)%len(closes)],
 		StabFee: stabs[k%len(stabs)], Batch: uint64(1 + rng.Intn(3)), Duration: uint64([]int{10, 60, 7, 3600}[rng.Intn(4)]),
 		Users: []string{"u1", "u2", "u3"}, FundColl: 20000, FundDebt: 3000, Bonus: []Frac{fr(0, 1), fr(1, 20), fr(1, 10)}[k%3]}
+	// first generation: own batch size and duration (durations whose time-to-zero-price is not a whole number of seconds included), buffer and cusp
+	c.BatchV1 = uint64(1 + rng.Intn(3))
+	c.DurationV1 = uint64([]int{10, 60, 7, 300}[rng.Intn(4)])
+	c.BufferV1 = []Frac{fr(6, 5), fr(3, 2), fr(1, 1)}[k%3]
+	c.CuspV1 = []Frac{fr(7, 10), fr(3, 5), fr(1, 2)}[(k/2)%3]
 	c.Interest = c.StabFee.Num > 0
 	return c
 }
@@ -80,8 +87,12 @@ func (w *World) randomAct(rng *sim.Rng) Act {
 	vs := w.vaultsView()
 	jit := func(x int64) int64 { return clampPos(x + int64(rng.Intn(3)) - 1) }
 	small := []int64{0, 1, 2, 3, 5, 7, 10, 13, 20, 50}
-	weights := []int{16, 6, 8, 10, 8, 4, 4, 3, 3, 3, 3, 5, 10, 6, 12, 1, 2, 2}
-	names := []string{"Create", "Deposit", "Withdraw", "Draw", "Repay", "Close", "DepositDraw", "SCreate", "SDeposit", "SWithdraw", "InterestCalc", "Liquidate", "Bid", "Price", "Block", "Breaker", "Reserve", "LiqExt"}
+	weights := []int{16, 6, 8, 10, 8, 4, 4, 3, 3, 3, 3, 5, 10, 6, 12, 1, 2, 2, 6, 10, 3, 5}
+	if w.V1Bias { // runs in which the first generation does most of the liquidating (fewer blocks = fewer V2 sweeps)
+		weights = []int{16, 6, 8, 10, 8, 4, 4, 3, 3, 3, 3, 1, 4, 8, 6, 1, 1, 1, 14, 20, 8, 10}
+	}
+	names := []string{"Create", "Deposit", "Withdraw", "Draw", "Repay", "Close", "DepositDraw", "SCreate", "SDeposit", "SWithdraw", "InterestCalc", "Liquidate", "Bid", "Price", "Block", "Breaker", "Reserve", "LiqExt",
+		"V1Liquidate", "V1Bid", "V1Sweep", "V1Tick"}
 	a := Act{A: names[rng.Weighted(weights)], U: u}
 	pickVault := func(own bool) (vaultView, bool) {
 		var c []vaultView
@@ -201,6 +212,60 @@ func (w *World) randomAct(rng *sim.Rng) Act {
 		if rng.Intn(20) == 0 {
 			a.D = "ucm"
 		}
+	case "V1Liquidate":
+		if len(vs) == 0 {
+			return w.randomAct(rng)
+		}
+		a.V = vs[rng.Intn(len(vs))].id
+		if rng.Intn(4) != 0 { // mostly aim at a vault that is currently under its minimum ratio, if there is one
+			var bad []vaultView
+			for _, v := range vs {
+				if p := w.Prod(v.prod); p != nil && w.maxDebt(p, v.in) < v.out+v.int+v.cls {
+					bad = append(bad, v)
+				}
+			}
+			if len(bad) > 0 {
+				a.V = bad[rng.Intn(len(bad))].id
+			}
+		}
+	case "V1Bid":
+		aucs := w.App.AuctionKeeper.GetDutchAuctions(w.Ctx, w.App1)
+		if len(aucs) == 0 {
+			return w.randomAct(rng)
+		}
+		au := aucs[rng.Intn(len(aucs))]
+		a.V = au.AuctionId
+		a.D = au.OutflowTokenCurrentAmount.Denom
+		left := i64(au.OutflowTokenCurrentAmount.Amount)
+		tab := i64(au.InflowTokenTargetAmount.Amount) - i64(au.InflowTokenCurrentAmount.Amount)
+		// collateral amount whose price is about the remaining target (the target-reached boundary)
+		edge := int64(0)
+		if au.OutflowTokenCurrentPrice.IsPositive() {
+			edge = sdk.NewDec(tab).Mul(au.InflowTokenCurrentPrice).MulInt64(w.Decs[a.D]).QuoInt64(w.Decs[au.InflowTokenTargetAmount.Denom]).Quo(au.OutflowTokenCurrentPrice).TruncateInt64()
+		}
+		switch rng.Intn(8) {
+		case 0:
+			a.X = 1
+		case 1:
+			a.X = left
+		case 2:
+			a.X = left + 1
+		case 3:
+			a.X = clampPos(left - 1)
+		case 4:
+			a.X = left / 2
+		case 5:
+			a.X = jit(edge)
+		case 6:
+			a.X = edge / 2
+		default:
+			a.X = small[rng.Intn(len(small))]
+		}
+		if rng.Intn(25) == 0 {
+			a.D = "ust"
+		}
+	case "V1Sweep", "V1Tick":
+		a.U = ""
 	case "Price":
 		a.U = ""
 		a.D = []string{"ucm", "uat", "ust", "uus", "ucm", "uat"}[rng.Intn(6)]
@@ -212,6 +277,20 @@ func (w *World) randomAct(rng *sim.Rng) Act {
 	case "Block":
 		a.U = ""
 		a.Y = []int64{1, 1, 2, 5, 6, 30, 3600, 86400, 0, 2592000, 31536000}[rng.Intn(11)]
+		if rng.Intn(3) == 0 { // boundary: land exactly on (or one second around) the end time of a live auction of either generation
+			var ends []int64
+			for _, au := range w.App.AuctionKeeper.GetDutchAuctions(w.Ctx, w.App1) {
+				ends = append(ends, au.EndTime.Unix()-w.Ctx.BlockTime().Unix())
+			}
+			for _, au := range w.App.NewaucKeeper.GetAuctions(w.Ctx) {
+				ends = append(ends, au.EndTime.Unix()-w.Ctx.BlockTime().Unix())
+			}
+			if len(ends) > 0 {
+				if d := ends[rng.Intn(len(ends))] + int64(rng.Intn(3)) - 1; d >= 0 {
+					a.Y = d
+				}
+			}
+		}
 	case "Breaker":
 		a.U = ""
 		a.On = rng.Intn(3) == 0
@@ -267,6 +346,7 @@ func Main(args []string) int {
 	for r := 0; r < *runs; r++ {
 		cfg := configFor(r+int(*seed), rng)
 		w := Setup(cfg)
+		w.V1Bias = r%3 == 1
 		run := fmt.Sprintf("drive:%d:%d", *seed, r)
 		par := rootNode(lg, w, run)
 		root := par
@@ -284,6 +364,9 @@ func Main(args []string) int {
 			fmt.Fprintln(os.Stderr, err)
 			return 2
 		}
+	}
+	if *depth > 0 {
+		exploreV1(lg, *seed, *depth+1, *maxNodes/2)
 	}
 	if *sweepFile != "" {
 		n, err := sweepReplay(lg, *sweepFile, *sweepMax, *seed)
@@ -377,7 +460,8 @@ func explore(lg *sim.Log, rng *sim.Rng, seed int64, depth, maxNodes int, actsFil
 		acts = ma
 	}
 	// beyond the vault model: block hooks, liquidation and bids are explored on the same branches (monitored, Conf_Block)
-	acts = append(acts, Act{A: "Block", Y: 5}, Act{A: "Liquidate", U: "u2", V: 1}, Act{A: "Bid", U: "u2", V: 1, D: "ust", X: 20}, Act{A: "Bid", U: "u1", V: 1, D: "ust", X: 100})
+	acts = append(acts, Act{A: "Block", Y: 5}, Act{A: "Liquidate", U: "u2", V: 1}, Act{A: "Bid", U: "u2", V: 1, D: "ust", X: 20}, Act{A: "Bid", U: "u1", V: 1, D: "ust", X: 100},
+		Act{A: "V1Liquidate", U: "u2", V: 1}, Act{A: "V1Bid", U: "u2", V: 1, D: "ucm", X: 10}, Act{A: "V1Sweep"}, Act{A: "V1Tick"})
 	seen := map[string]bool{digestOf(w0.Project()): true}
 	type item struct {
 		w    *World
@@ -409,4 +493,54 @@ func explore(lg *sim.Log, rng *sim.Rng, seed int64, depth, maxNodes int, actsFil
 	}
 	_ = rng
 	return nil
+}
+
+// exploreV1: bounded breadth-first exploration of the first-generation liquidation and Dutch auction actions on the real
+// code, from a prepared state (two vaults at their minimum ratio, then the collateral price halves): every sequence of the
+// action instances below up to `depth`, de-duplicated by the digest of the projected state, on CacheContext branches.
+func exploreV1(lg *sim.Log, seed int64, depth, maxNodes int) {
+	w0 := Setup(exploreConfig())
+	run := fmt.Sprintf("explorev1:%d", seed)
+	root := rootNode(lg, w0, run)
+	p1 := w0.Prods[0].ID
+	par := root
+	for _, a := range []Act{{A: "Create", U: "u1", P: p1, X: 30, Y: 40}, {A: "Create", U: "u2", P: p1, X: 15, Y: 20}, {A: "Price", D: "ucm", Y: 1, On: true}} {
+		rs := w0.Do(a)
+		par = lg.Add(par, run, a.A, a.Args(), rs, map[string]interface{}{"s": w0.Project(), "root": root})
+	}
+	acts := []Act{
+		{A: "V1Liquidate", U: "u2", V: 1}, {A: "V1Liquidate", U: "u1", V: 2}, {A: "V1Sweep"}, {A: "V1Tick"},
+		{A: "V1Bid", U: "u2", V: 1, D: "ucm", X: 10}, {A: "V1Bid", U: "u2", V: 1, D: "ucm", X: 30}, {A: "V1Bid", U: "u1", V: 1, D: "ucm", X: 5},
+		{A: "V1Bid", U: "u1", V: 2, D: "ucm", X: 15}, {A: "V1Bid", U: "u2", V: 2, D: "ucm", X: 14},
+		{A: "Block", Y: 5}, {A: "Block", Y: 10}, {A: "Price", D: "ucm", Y: 2, On: true}, {A: "Price", D: "ucm", Y: 1, On: false},
+		{A: "Deposit", U: "u1", P: p1, V: 1, X: 40}, {A: "Breaker", On: true},
+	}
+	seen := map[string]bool{digestOf(w0.Project()): true}
+	type item struct {
+		w    *World
+		node int
+		d    int
+	}
+	queue := []item{{w0, par, 0}}
+	maxNodes += len(lg.Nodes)
+	for len(queue) > 0 && len(lg.Nodes) < maxNodes {
+		it := queue[0]
+		queue = queue[1:]
+		if it.d >= depth {
+			continue
+		}
+		for _, a := range acts {
+			if len(lg.Nodes) >= maxNodes {
+				break
+			}
+			c := it.w.Fork()
+			rs := c.Do(a)
+			st := c.Project()
+			id := lg.Add(it.node, run, a.A, a.Args(), rs, map[string]interface{}{"s": st, "root": root})
+			if dg := digestOf(st); !seen[dg] {
+				seen[dg] = true
+				queue = append(queue, item{c, id, it.d + 1})
+			}
+		}
+	}
 }
